@@ -163,11 +163,10 @@ var (
 // float32frombitsOf reads a float32 out of a reflect.Value without converting it to float64 (which would
 // quiet signalling NaNs).
 func float32frombitsOf(v reflect.Value) float32 {
-	if f, ok := v.Interface().(float32); ok {
-		return f
-	}
+	p := reflect.New(v.Type())
+	p.Elem().Set(v) // a memory copy
 
-	return float32(v.Float())
+	return *(*float32)(p.UnsafePointer())
 }
 
 // errUntypable: the tree denotes a value the Go type cannot hold (the model then says Encode fails too).
@@ -217,11 +216,7 @@ func toGo(s *Schema, tree any, t reflect.Type) (reflect.Value, error) {
 				return v, errUntypable{"float32 bits"}
 			}
 			// no float64 detour: it would quiet a signalling NaN (the payload must survive bit for bit)
-			f := math.Float32frombits(uint32(x.Uint64()))
-			v.Set(reflect.ValueOf(&f).Elem().Convert(t))
-			if math.Float32bits(float32frombitsOf(v)) != uint32(x.Uint64()) {
-				*(v.Addr().Interface().(*float32)) = f
-			}
+			*(*float32)(v.Addr().UnsafePointer()) = math.Float32frombits(uint32(x.Uint64()))
 		case reflect.Float64:
 			if x.Sign() < 0 || x.BitLen() > 64 {
 				return v, errUntypable{"float64 bits"}
